@@ -4,6 +4,7 @@ from props import _generic as g
 
 def run(ctx):
     fns = g.run_pyvc(ctx, "C02")
+    g.run_fsearch(ctx)
     ctx.standin("range_rt", families=tuple("OO,II".split(",")))
     return "proof", (
         "Engine P (%d targets): the leaf layer - _BucketBase._range for every combination of present / omitted / None / exclusive "
@@ -12,5 +13,7 @@ def run(ctx):
         "the interior-node layer in the ORDER view - _Tree.maxKey(b) returns the greatest key <= b of the whole subtree, also "
         "through stale separators, and raises ValueError only if no key qualifies (children abstracted by least / greatest key "
         "and key-set summaries; the same contract assumed for the children; _Tree._search against the separators). "
-        "_Tree.minKey, _Tree.keys / _TreeItems (the lazy sequences) and the C implementation are the bounded stand-in range_rt "
+        "Engine C, F-SEARCH: the searches that locate a range end (Bucket_findRangeEnd, BTree_findRangeEnd) return the exact "
+        "position / child for all contents of integer-keyed units. "
+        "_Tree.minKey, _Tree.keys / _TreeItems (the lazy sequences) and the rest of the C implementation are the bounded stand-in range_rt "
         "(every bound combination on every reached shape, incl. stale-separator states built through __setstate__)." % len(fns))
